@@ -137,8 +137,10 @@ claim("C15",
 claim("C18",
       "Lean theorems KB.Props.C18: `role_table` by decide over the handler-guard table REGENERATED from both servers' handlers (every write/watch handler on a "
       "follower forwards or refuses without touching the backend; every read handler syncs first and returns the sync error); follower read-sync LTS: the full "
-      "freshness statement is refuted (`joined_fetch_is_stale`, `late_set_lowers_revision`: two known findings replayed on the real syncer every run), proved for "
-      "non-overlapping reads and for the proposed repair. Correspondence: every handler x role x proxy x leader behaviour (exhaustive) + follower schedules.",
+      "freshness statement is refuted by `joined_fetch_is_stale` (one known finding, replayed on the real syncer every run); after fix db7d4ff the read revision never "
+      "decreases and a read that did its own fetch is fresh (`late_set_does_not_lower`, `stale_read_joined_late`: the late join is the only remaining source of staleness); "
+      "a forwarded transaction is executed at most once and a lost answer is passed on as Unavailable (`forward_at_most_once`). Correspondence: every handler x role x proxy x "
+      "leader behaviour (exhaustive), follower schedules on the real syncer incl. revisions above 2^53, forwarded transactions through the real etcd proxy with lost answers.",
       TB + "kbextract's syntactic guard analysis (cross-checked row by row by the exhaustive run); role does not change within a request.",
       "Lean 4 proof + decide over a regenerated table + exhaustive differential table run", "docs/DESIGN-C18.md")
 
